@@ -122,6 +122,8 @@ type transUnit struct {
 	consts      map[string]string // package-level string constants resolved from the source: Go name -> Lean literal
 	outcome     string            // outcome type of functions that may leave the translated semantics ("" = MayPanic)
 	guardGrowth bool              // `m[e] = …` with e ≠ k inside `for k := range m` is accepted with the guard "e is a key of m" (otherwise: outcome unspecified)
+	// phase 4 (gotrans_step.go): nil for the units of phases 1–3, whose output must not change
+	step *stepOpts
 }
 
 func (u *transUnit) outcomeTy() string {
@@ -140,6 +142,8 @@ type methodInfo struct {
 	mayPanic bool
 	fuel     bool
 	extArgs  string
+	outcome  string       // phase 4: the outcome type of a mayPanic function ("" = MayPanic)
+	inout    []inoutParam // phase 4: in/out parameters, returned after the receiver and before the results
 }
 
 type fieldInfo struct {
@@ -415,6 +419,11 @@ type fnCtx struct {
 	ranged   []rangedMap // maps being ranged over whose other keys the body assigns (guardGrowth)
 	derefN   int
 	curInd   int // indentation of the statement being translated (for lines an expression has to emit before it)
+	// phase 4
+	inout   []inoutParam
+	tmpN    int
+	inShort int      // > 0 while translating the right operand of && / ||
+	next    ast.Stmt // the statement after the one being translated (same block), if any
 }
 
 type rangedMap struct{ m, key string }
@@ -457,6 +466,11 @@ func (c *fnCtx) line(ind int, s string) {
 // expr translates an expression; want (may be nil) is the expected type (for nil).
 func (c *fnCtx) expr(e ast.Expr, want *gty) (string, *gty) {
 	u := c.u
+	if u.step != nil {
+		if s, t, ok := c.stepExpr(e, want); ok {
+			return s, t
+		}
+	}
 	switch v := e.(type) {
 	case *ast.ParenExpr:
 		s, t := c.expr(v.X, want)
@@ -708,6 +722,9 @@ func (u *transUnit) enumOf(constName string) string {
 
 // assignTo emits `lhs = rhsLean`.
 func (c *fnCtx) assignTo(ind int, lhs ast.Expr, rhs string, pos token.Pos) {
+	if c.u.step != nil && c.stepAssignTo(ind, lhs, rhs, pos) {
+		return
+	}
 	switch l := lhs.(type) {
 	case *ast.Ident:
 		if l.Name == "_" {
@@ -759,7 +776,7 @@ func (c *fnCtx) typeOfLhs(lhs ast.Expr) *gty {
 		return t
 	case *ast.IndexExpr:
 		_, t := c.expr(l.X, nil)
-		if t.kind == "map" {
+		if t.kind == "map" || (t.kind == "slice" && c.u.step != nil) {
 			return t.elem
 		}
 	}
@@ -768,8 +785,11 @@ func (c *fnCtx) typeOfLhs(lhs ast.Expr) *gty {
 
 func (c *fnCtx) retTuple(vals []string) string {
 	parts := []string{}
-	if c.recv != "" {
+	if c.recvReturned() {
 		parts = append(parts, c.lookup(c.recv).lean)
+	}
+	for _, io := range c.inout {
+		parts = append(parts, io.lean)
 	}
 	parts = append(parts, vals...)
 	if len(parts) == 1 {
@@ -845,6 +865,9 @@ func (c *fnCtx) commaOk(ind int, as *ast.AssignStmt) bool {
 		return false
 	}
 	ks, _ := c.expr(ix.Index, tyString)
+	if c.u.step != nil && mt.elem.kind == "named" && c.u.step.valueStructs[mt.elem.name] {
+		c.stepCheckNilGuard(as)
+	}
 	names := []string{}
 	fresh := map[int]bool{}
 	for i, l := range as.Lhs {
@@ -912,7 +935,11 @@ func (c *fnCtx) commaOk(ind int, as *ast.AssignStmt) bool {
 func (c *fnCtx) block(ind int, b *ast.BlockStmt) {
 	c.push()
 	n := c.sb.Len()
-	for _, s := range b.List {
+	for i, s := range b.List {
+		c.next = nil
+		if i+1 < len(b.List) {
+			c.next = b.List[i+1]
+		}
 		c.stmt(ind, s)
 	}
 	if c.sb.Len() == n {
@@ -924,6 +951,9 @@ func (c *fnCtx) block(ind int, b *ast.BlockStmt) {
 func (c *fnCtx) stmt(ind int, s ast.Stmt) {
 	u := c.u
 	c.curInd = ind
+	if u.step != nil && c.stepStmt(ind, s) {
+		return
+	}
 	switch v := s.(type) {
 	case *ast.EmptyStmt:
 	case *ast.BlockStmt:
@@ -1413,6 +1443,7 @@ func (u *transUnit) transFuncMode(recv, name, leanName string, mayPanic bool) bo
 	c.push()
 	var params []string
 	var paramTys []*gty
+	var paramNames []string
 	if fd.Recv != nil && len(fd.Recv.List) == 1 && len(fd.Recv.List[0].Names) == 1 {
 		c.recv = fd.Recv.List[0].Names[0].Name
 		c.recvTy = &gty{kind: "named", name: recv}
@@ -1423,7 +1454,7 @@ func (u *transUnit) transFuncMode(recv, name, leanName string, mayPanic bool) bo
 		params = append(params, fmt.Sprintf("(%s : %s)", ln, u.leanType(c.recvTy)))
 	}
 	var mutNames []string
-	if c.recv != "" {
+	if c.recvReturned() {
 		mutNames = append(mutNames, c.lookup(c.recv).lean)
 	}
 	for _, f := range fd.Type.Params.List {
@@ -1454,9 +1485,11 @@ func (u *transUnit) transFuncMode(recv, name, leanName string, mayPanic bool) bo
 		if len(f.Names) == 0 {
 			params = append(params, fmt.Sprintf("(_ : %s)", u.leanType(t)))
 			paramTys = append(paramTys, t)
+			paramNames = append(paramNames, "_")
 		}
 		for _, nm := range f.Names {
 			paramTys = append(paramTys, t)
+			paramNames = append(paramNames, nm.Name)
 			if nm.Name == "_" {
 				params = append(params, fmt.Sprintf("(_ : %s)", u.leanType(t)))
 				continue
@@ -1478,9 +1511,15 @@ func (u *transUnit) transFuncMode(recv, name, leanName string, mayPanic bool) bo
 			c.results = append(c.results, t)
 		}
 	}
+	if u.step != nil {
+		c.inout = c.stepInoutParams(paramNames, paramTys)
+	}
 	var rts []string
-	if c.recv != "" {
+	if c.recvReturned() {
 		rts = append(rts, u.leanType(c.recvTy))
+	}
+	for _, io := range c.inout {
+		rts = append(rts, u.leanType(io.ty))
 	}
 	for _, t := range c.results {
 		rts = append(rts, u.leanType(t))
@@ -1489,7 +1528,11 @@ func (u *transUnit) transFuncMode(recv, name, leanName string, mayPanic bool) bo
 	if len(rts) > 0 {
 		rt = strings.Join(rts, " × ")
 	}
-	for _, s := range fd.Body.List {
+	for i, s := range fd.Body.List {
+		c.next = nil
+		if i+1 < len(fd.Body.List) {
+			c.next = fd.Body.List[i+1]
+		}
 		c.stmt(2, s)
 	}
 	// falling off the end
@@ -1511,8 +1554,8 @@ func (u *transUnit) transFuncMode(recv, name, leanName string, mayPanic bool) bo
 		rt = u.outcomeTy() + " (" + rt + ")"
 		u.noteAssume("a method call through a nil interface value (a missing map entry) panics in Go: the translated function then returns the explicit outcome " + u.outcomeTy() + ".panic")
 	}
-	u.methods[recv+"."+name] = &methodInfo{leanName: leanName, hasRecv: c.recv != "", params: paramTys, results: c.results,
-		mayPanic: mayPanic, fuel: c.fuelUsed, extArgs: u.extArgs}
+	u.methods[recv+"."+name] = &methodInfo{leanName: leanName, hasRecv: c.recvReturned(), params: paramTys, results: c.results,
+		mayPanic: mayPanic, fuel: c.fuelUsed, extArgs: u.extArgs, outcome: u.outcome, inout: c.inout}
 	u.defs = append(u.defs, c.pre...)
 	var sb strings.Builder
 	fmt.Fprintf(&sb, "/-- Go: func ")
